@@ -28,8 +28,19 @@ use vcommon::{catch, fmt_result, payload, sparse_words};
 pub const SESSION: i32 = 11;
 pub const STREAM: i32 = 22;
 
-pub fn harness_rv(_b: AtomicBuffer, off: Index, flen: Index) -> i64 {
-    off as i64 * 1000003 + flen as i64 * 7 + 1
+/// Reserved-value supplier of the harness (same function as Model/Publication.v `harness_rv`): it reads the frame it is
+/// handed - a position-weighted checksum over the payload bytes [off + 32, off + frame_length) of the term buffer - so a
+/// supplier that is called before the payload is in place, or on the wrong range, shows up in the frame's reserved value.
+pub fn harness_rv(b: AtomicBuffer, off: Index, flen: Index) -> i64 {
+    let mut sum: i64 = 0;
+    let mut i: i64 = 1;
+    let mut at = off + 32;
+    while at < off + flen {
+        sum = sum.wrapping_add(i.wrapping_mul(b.get::<u8>(at) as i64));
+        i += 1;
+        at += 1;
+    }
+    (off as i64 * 1000003 + flen as i64 * 7 + 1).wrapping_add(sum)
 }
 
 pub enum Pubn {
